@@ -166,7 +166,7 @@ impl OpGen<'_> {
         self.key_at(out, t, i);
     }
     fn range(&mut self) -> u64 {
-        if self.fault() && self.huge { *self.rng.pick(&[u64::MAX, 1 << 40, 1 << 32, 5000, 100]) } else { *self.rng.pick(&[0u64, 1, 1, 2, 2, 3, 3, 4, 5]) }
+        if self.fault() && self.huge { *self.rng.pick(&[u64::MAX, 1 << 40, 1 << 32, 300, 100]) } else { *self.rng.pick(&[0u64, 1, 1, 2, 2, 3, 3, 4, 5]) }
     }
     fn src(&mut self, out: &mut Vec<Asm>, t: u8, len: usize) {
         if self.fault() { match self.rng.below(2) { 0 => out.push(Asm::I(op::subi(t, RegId::HP, 40))), _ => out.push(Asm::I(op::not(t, RegId::ZERO))) } }
